@@ -303,7 +303,14 @@ fn main() {
             _ => {
                 let mut idx = k;
                 while idx < n_runs {
-                    if let (script, Some(v)) = simulate_run(seed, idx, &mut acc, crosscheck) {
+                    // one run in eight executes on a thread of its own: per-thread
+                    // library state is then in its first-use condition
+                    let outcome = if idx % 8 == 5 {
+                        std::thread::scope(|s| s.spawn(|| simulate_run(seed, idx, &mut acc, crosscheck)).join().expect("harness thread"))
+                    } else {
+                        simulate_run(seed, idx, &mut acc, crosscheck)
+                    };
+                    if let (script, Some(v)) = outcome {
                         acc.violations.push((idx, script, v));
                         break;
                     }
